@@ -93,7 +93,8 @@ Definition code_sem : sem :=
     (width, stride, start >= width - 1) over simple / WithinTrial factors of
     [act_design]; the factors outside [act_design] (implied) are derived from
     such factors through any window that never reads before the first trial, by
-    tables one level of which accepts every argument tuple; sustain 1, crossings
+    tables one level of which accepts every argument tuple; positive sustain counts
+    ([sustains_ok]: Nest / Repeat), crossings
     after their preambles (a crossed complex factor has stride 1 and starts no
     later than the crossing), exclusions from a crossing only through Exclude
     constraints and inconsistent derived levels, constraint kinds Consistency / Cross / Derivation (simple) /
@@ -288,7 +289,7 @@ Definition start_of (f : nat) : nat :=
 
 Definition constraint_f1 (c : fconstraint) : bool :=
   match c with
-  | FCross | FConsistency | FReify _ | FMinimumTrials _ | FContinuous => true
+  | FCross | FConsistency | FSustain | FReify _ | FMinimumTrials _ | FContinuous => true
   | FDerivation _ _ _ => true                      (* shape checked by [derivations_match] *)
   | FAtMost _ f l wb => isact f && (l <? nlevels fb f) && geom_ok wb && stride1 f
   | FExactlyK _ f l wb =>
@@ -300,7 +301,7 @@ Definition constraint_f1 (c : fconstraint) : bool :=
   | FAtLeast k f l wb | FExactlyKInARow k f l wb =>
     (0 <? k) && isact f && (l <? nlevels fb f) && geom_ok wb && stride1 f
   | FSequential f =>
-    isact f && negb (is_complex fb f) &&
+    isact f && negb (is_complex fb f) && (sustain_of fb f =? 1) &&
     match factor_preamble_size fb f with COk 0 => true | _ => false end
   | _ => false
   end.
@@ -336,12 +337,31 @@ Definition exclude_backed : bool :=
 Definition no_excluded_derived : bool :=
   match fl_excluded_derived fb with [] => true | _ => false end.
 
+(** sustain counts (Nest / Repeat): positive; 1 for the factors with a complex
+    window and for the implied factors; a WithinTrial factor of act_design is
+    sustained no longer than the factors it reads (its groups of trials lie
+    inside theirs); and the [Sustain] constraint is there when a count is not 1 *)
+Definition grid_factor (f : nat) : bool := isact f && negb (is_complex fb f).
+
+Definition sustains_ok : bool :=
+  forallb (fun n => 0 <? n) (fl_sustains fb) &&
+  forallb (fun p =>
+             let f := fst p in
+             (grid_factor f || (sustain_of fb f =? 1)) &&
+             match ff_window (snd p) with
+             | Some w => negb (grid_factor f) ||
+                         forallb (fun d => (sustain_of fb d) mod (sustain_of fb f) =? 0) (win_deps w)
+             | None => true
+             end) (combine (seq 0 (length (fl_design fb))) (fl_design fb)) &&
+  (forallb (fun n => n =? 1) (fl_sustains fb) ||
+   existsb (fun c => match c with FSustain => true | _ => false end) (fl_constraints fb)).
+
 Definition in_f1 : bool :=
   forallb (fun p => negb (isact (fst p)) || factor_f1 (snd p)) (combine (seq 0 (length (fl_design fb))) (fl_design fb)) &&
   forallb (fun p => tables_ok (fst p) (snd p) && tables_unambiguous (fst p) (snd p))
           (combine (seq 0 (length (fl_design fb))) (fl_design fb)) &&
   (act_sorted && forallb (fun p => implied_ok (fst p) (snd p)) (combine (seq 0 (length (fl_design fb))) (fl_design fb))) &&
-  forallb (fun n => n =? 1) (fl_sustains fb) &&
+  sustains_ok &&
   (length (fl_sustains fb) =? length (fl_crossings fb)) &&
   crossings_f1 0 (fl_crossings fb) &&
   forallb list_nat_nodup (fl_crossings fb) &&
@@ -359,7 +379,7 @@ Definition f1_why : list bool :=
     forallb (fun p => tables_ok (fst p) (snd p)) (combine (seq 0 (length (fl_design fb))) (fl_design fb));
     forallb (fun p => tables_unambiguous (fst p) (snd p)) (combine (seq 0 (length (fl_design fb))) (fl_design fb));
     act_sorted && forallb (fun p => implied_ok (fst p) (snd p)) (combine (seq 0 (length (fl_design fb))) (fl_design fb));
-    forallb (fun n => n =? 1) (fl_sustains fb);
+    sustains_ok;
     true;
     crossings_f1 0 (fl_crossings fb);
     forallb list_nat_nodup (fl_crossings fb);
